@@ -671,7 +671,19 @@ class Evaluator:
             return done_all
         return self.sym_loop(st, fr, it)
 
+    @staticmethod
+    def _norm_while(st):
+        """`while True: if <t>: break; <body>` (no else) is `while not <t>: <body>`."""
+        if isinstance(st.test, ast.Constant) and st.test.value in (True, 1) and not st.orelse and st.body:
+            h = st.body[0]
+            if isinstance(h, ast.If) and not h.orelse and len(h.body) == 1 and isinstance(h.body[0], ast.Break):
+                t = h.test.operand if isinstance(h.test, ast.UnaryOp) and isinstance(h.test.op, ast.Not) else ast.copy_location(ast.UnaryOp(op=ast.Not(), operand=h.test), h.test)
+                body = st.body[1:] or [ast.copy_location(ast.Pass(), st)]
+                return ast.copy_location(ast.While(test=t, body=body, orelse=[]), st)
+        return st
+
     def while_(self, st, fr):
+        st = self._norm_while(st)
         # a while whose test folds to False never runs
         c0 = tm.truth(self.expr(st.test, fr))
         if c0 is False:
